@@ -121,6 +121,10 @@ type RecSpec struct {
 	Msg       vp.S         `json:"msg"`
 	AttrCalls [][]AttrSpec `json:"attr_calls"` // successive AddAttrs calls
 	Uses      []int        `json:"uses"`       // node indexes (modulo)
+	// DirtyCopy: a plain copy of the record got an extra attribute before the
+	// record is handled (the spare capacity behind the record's attributes is
+	// no longer zero).
+	DirtyCopy bool `json:"dirty_copy,omitempty"`
 }
 
 // Case is a handler configuration, a derivation tree and records.
@@ -254,6 +258,14 @@ func (r RecSpec) build() slog.Record {
 	rec := slog.NewRecord(tm, slog.Level(r.Level), msg, pc)
 	for _, call := range r.AttrCalls {
 		rec.AddAttrs(buildAll(call)...)
+	}
+	if r.DirtyCopy {
+		// Somebody else (a middleware, a fan-out handler) took a plain copy
+		// of the record and added attributes to ITS copy without Clone.  That
+		// is their mistake; the record handed to the handler under test is
+		// unchanged and slog.TextHandler prints it as before.
+		other := rec
+		other.AddAttrs(slog.String("added-by-someone-else", "to their copy"))
 	}
 	return rec
 }
@@ -524,11 +536,12 @@ func genCase(t *rapid.T, concurrent bool) Case {
 	}
 	for i := 0; i < nr; i++ {
 		r := RecSpec{
-			Level:   rapid.SampledFrom([]int{-8, -4, 0, 4, 7, 8, 9, 12}).Draw(t, "level"),
-			HasTime: rapid.Bool().Draw(t, "hastime"),
-			HasPC:   rapid.Bool().Draw(t, "haspc"),
-			Msg:     vp.S(strGen.Draw(t, "msg")),
-			Uses:    rapid.SliceOfN(rapid.IntRange(0, nn), 1, 4).Draw(t, "uses"),
+			Level:     rapid.SampledFrom([]int{-8, -4, 0, 4, 7, 8, 9, 12}).Draw(t, "level"),
+			HasTime:   rapid.Bool().Draw(t, "hastime"),
+			HasPC:     rapid.Bool().Draw(t, "haspc"),
+			Msg:       vp.S(strGen.Draw(t, "msg")),
+			Uses:      rapid.SliceOfN(rapid.IntRange(0, nn), 1, 4).Draw(t, "uses"),
+			DirtyCopy: rapid.IntRange(0, 4).Draw(t, "dirtycopy") == 0,
 		}
 		if rapid.IntRange(0, 120).Draw(t, "bigmsg") == 77 {
 			r.BigMsg = rapid.SampledFrom([]int{257, 4097, 10000, 16385, 20000}).Draw(t, "bigmsgsize")
